@@ -33,7 +33,7 @@ RULE = ("chains of 1..5 templates; every level draws, per member name of a share
         "attribute values that are numbers or None/''/False/0, bodies and member contents made of literal tags [tN] (N unique per chain), "
         "calls with content (<%call>/<%self:..> to a def writing caller.body() once) holding tags, member calls and anonymous blocks, calls "
         "self/next/parent/local.X(), X.body(pos, kw), ${X.attr.a}, anonymous blocks; inherit written as a literal, "
-        "as one of four expression forms (one reads the target from self.attr while the chain is being built), or as an expression evaluating to None; 5% of the references are "
+        "as one of five expression forms (two read the target from self.attr while the chain is being built, one after a hasattr member probe on the partial chain), or as an expression evaluating to None; 5% of the references are "
         "deliberately invalid (next at T0, parent at the base, missing member, recursion); put_string lookups, "
         "and file-backed lookups (with and without module_directory) in the thorough tier. A case is non-trivial "
         "when the chain has >= 2 levels and some member is declared at >= 2 levels or a named block is nested; "
@@ -179,10 +179,16 @@ def level_source(case, i):
             w.w('<%%inherit file="${tv%d}"/>%s' % (i, hnl))
         elif form == 2:
             w.w('<%%inherit file="${context.get(\'nosuchkey\', \'%s\')}"/>%s' % (tgt, hnl))
-        else:
+        elif form == 3:
             # the target is a module attribute read through self.attr while the chain is still being built
             w.w("<%%! tv%d = '%s' %%>%s" % (i, tgt, hnl))
             w.w('<%%inherit file="${context[\'self\'].attr.tv%d}"/>%s' % (i, hnl))
+        else:
+            # ... built from a piece read through self.attr, after a member probe on the partially built chain
+            # (hasattr runs TemplateNamespace.__getattr__, which memoises what it finds)
+            w.w("<%%! tw%d = '%s' %%>%s" % (i, tgt[1:], hnl))
+            w.w('<%%inherit file="${\'%s%%s\' %% context[\'self\'].attr.tw%d if hasattr(context[\'self\'], \'%s\') '
+                'else \'%s\' + context[\'self\'].attr.tw%d}"/>%s' % (tgt[:1], i, lv.get("probe", "ma"), tgt[:1], i, hnl))
     elif inh == "Z":
         if lv.get("form", 0) == 0:
             w.w('<%%inherit file="${None}"/>%s' % hnl)
@@ -628,7 +634,7 @@ class Gen:
         for i in range(nlev):
             last = i == nlev - 1
             lv = {"inh": ("N" if rng.random() < 0.8 else "Z") if last else rng.choice(["S", "S", "D"]),
-                  "form": rng.randint(0, 3), "hnl": rng.random() < 0.5,
+                  "form": rng.randint(0, 4), "probe": rng.choice(pool), "hnl": rng.random() < 0.5,
                   "sig": [], "attrs": [], "nodes": []}
             if lv["inh"] == "Z":
                 lv["form"] = rng.randint(0, 2)
